@@ -32,13 +32,26 @@ def collect_paths(tree, cfgk):
     return gen_tree.all_paths(tree, cfgk)
 
 
-def make_app(tree, cfgk, raise_paths, log, shared_parser=None):
+def make_app(tree, cfgk, raise_paths, log, shared_parser=None, stylers=(), unclosed=()):
+    from vf import markup as mk
+
+    def tag(name, text):
+        return mk.LT + name + mk.GT + text + mk.LT + "/" + name + mk.GT
+
     def handler_for(path, cmd):
         class H(object):
             def handle(self, args, io, command):
                 log.append((command.full_name, args.arguments(False), args.options(False)))
-                io.write_line("ran " + command.full_name)
+                if " ".join(path) in stylers:
+                    # registers a style on the formatter of the I/O it was handed (that I/O belongs to this run)
+                    from clikit.api.formatter import Style
+
+                    io.output.formatter.add_style(Style("hl").fg("red").bold())
+                # 'hl' is not a style of the application: without the registration above it is shown as written
+                io.write_line("ran " + command.full_name + " " + tag("hl", "shown") + " " + tag("b", "bold"))
                 io.error_line("err " + command.full_name)
+                if " ".join(path) in unclosed:
+                    io.write_line(mk.LT + "error" + mk.GT + "unterminated " + command.full_name)
                 if " ".join(path) in raise_paths:
                     raise ValueError("handler of %s failed" % command.full_name)
                 return 3 if len(path) > 2 else 0
@@ -88,7 +101,8 @@ def check_history(ctx, case, part="history"):
     shared = part == "shared-parser"
     log = []
     try:
-        app = make_app(tree, cfgk, raise_paths, log, DefaultArgsParser() if shared else None)
+        extra = {"stylers": set(case.get("stylers", [])), "unclosed": set(case.get("unclosed", []))}
+        app = make_app(tree, cfgk, raise_paths, log, DefaultArgsParser() if shared else None, **extra)
     except Exception as e:
         raise AssertionError("generator built an illegal tree: %r" % (e,))
     before = leniency(app, tree, cfgk)
@@ -104,7 +118,7 @@ def check_history(ctx, case, part="history"):
             return
         got_log = list(log)
         flog = []
-        fresh = make_app(tree, cfgk, raise_paths, flog, DefaultArgsParser() if shared else None)
+        fresh = make_app(tree, cfgk, raise_paths, flog, DefaultArgsParser() if shared else None, **extra)
         try:
             want = run_once(fresh, tokens)
         except Exception as e:
@@ -167,7 +181,16 @@ def history_case(draw, max_steps):
         else:
             tokens = ["--version"] + [] if not path else path + ["--version"]
         steps.append({"kind": kind, "tokens": tokens})
-    return {"tree": tree, "config": cfgk, "steps": steps, "raise_paths": raise_paths}
+    case = {"tree": tree, "config": cfgk, "steps": steps, "raise_paths": raise_paths}
+    if paths and draw(st.booleans()):
+        # some handlers register a style on their run's formatter / leave a tag open
+        case["stylers"] = draw(st.lists(st.sampled_from(paths), max_size=2, unique=True))
+        case["unclosed"] = draw(st.lists(st.sampled_from(paths), max_size=1, unique=True))
+        if draw(st.booleans()):
+            for s_ in steps:
+                if s_["kind"].startswith("line") and "--" not in s_["tokens"]:
+                    s_["tokens"] = list(s_["tokens"]) + ["--ansi"]
+    return case
 
 
 # ------------------------------------------------------------------------------------------ styles
